@@ -132,7 +132,7 @@ Theorem ipseckey_parse_compose g v pre post :
   rdlen (ipseckey_schema g) false v = Ok (Some (len (compose (ipseckey_schema g) v))).
 Proof.
   intros Hg Hv. split; [|apply (rdlen_exact _ _ Hv)].
-  pose proof (parse_compose pname_nc_dec pname_nc_dec_complete (ipseckey_schema g) v pre post
+  pose proof (parse_compose (pname_nc_dec Gen.ipseckey_checks_consumed) (pname_nc_dec_complete _) (ipseckey_schema g) v pre post
                 (ipseckey_schema_wf g) Hv) as Hpc.
   unfold wf_value in Hv. apply andb_true_iff in Hv as [Hv Hpost].
   apply andb_true_iff in Hv as [Hf _].
@@ -170,10 +170,61 @@ Example ipseckey_examples :
   ipseckey_parse [10; 3; 2; 1; 97; 0; 7] 0 7 = Ok [VNum 10; VNum 3; VNum 2; VName [[97]]; VBytes [7]] /\
   (* label + pointer: refused; pointer only: taken as an uncompressed name at the target *)
   ipseckey_parse [1; 120; 0; 10; 3; 2; 1; 97; 192; 0; 7] 3 11 = Err E_FORM /\
-  ipseckey_parse [1; 120; 0; 10; 3; 2; 192; 0; 7] 3 9 = Ok [VNum 10; VNum 3; VNum 2; VName [[120]]; VBytes [7]] /\
+  ipseckey_parse [1; 120; 0; 10; 3; 2; 192; 0; 7] 3 9 =
+    (if Gen.ipseckey_checks_consumed then Err E_FORM
+     else Ok [VNum 10; VNum 3; VNum 2; VName [[120]]; VBytes [7]]) /\
   ipseckey_parse [10; 4; 2; 7] 0 4 = Err E_FORM /\
   ipseckey_parse [10; 1] 0 2 = Err E_SHORT /\
   (* Ipseckey::new takes the key-less value that parse refuses *)
   ctor_accepts (ipseckey_schema 0) [VNum 10; VNum 0; VNum 2; VBytes []] = true /\
   wf_value (ipseckey_schema 0) [VNum 10; VNum 0; VNum 2; VBytes []] = false.
 Proof. vm_compute. repeat split; reflexivity. Qed.
+
+(* RFC 4025 2.5: the gateway name MUST NOT be compressed.  With the consumed
+   length compared (T1 flag) every accepted gateway name was read from exactly
+   its uncompressed octets; without it a gateway that is only a compression
+   pointer is accepted. *)
+Theorem ipseckey_pointer_gateway_refuted :
+  Gen.ipseckey_checks_consumed = false ->
+  exists m pos lim v, ipseckey_parse m pos lim = Ok v /\ get m (pos + 3) = Some 192.
+Proof.
+  intros H. exists [1; 120; 0; 10; 3; 2; 192; 0; 7], 3, 9, [VNum 10; VNum 3; VNum 2; VName [[120]]; VBytes [7]].
+  unfold ipseckey_parse. rewrite H. vm_compute. auto.
+Qed.
+
+Theorem nc_dec_strict_exact m pos lim n e :
+  pname_nc_dec true m pos lim = Ok (n, e) ->
+  exists p, parse_ref m pos lim = Ok p /\ pn_compressed p = false /\ e - pos = pn_len p.
+Proof.
+  unfold pname_nc_dec. destruct (parse_ref m pos lim) as [p| | |]; try discriminate.
+  cbn [bind]. destruct (pn_compressed p) eqn:Ec; [discriminate|]. cbn [andb].
+  destruct (N.eqb_spec (pn_end p - pos) (pn_len p)) as [E|]; [|discriminate]. cbn [negb].
+  destruct (pname_labels m p) as [r| | |]; try discriminate. cbn [bind].
+  intros H. injection H as _ <-. exists p. auto.
+Qed.
+
+(* ---- StandardServerCookie *)
+Theorem std_cookie_roundtrip v pre post :
+  wf_value std_cookie_schema v = true ->
+  parse_rdata flat_dec std_cookie_schema (pre ++ compose std_cookie_schema v ++ post) (len pre)
+    (len pre + len (compose std_cookie_schema v)) = Ok v /\
+  len (compose std_cookie_schema v) = 16.
+Proof.
+  intros Hv. split.
+  - apply parse_compose; auto. apply flat_dec_complete.
+  - unfold wf_value in Hv. apply andb_true_iff in Hv as [Hv _]. apply andb_true_iff in Hv as [Hf _].
+    unfold std_cookie_schema, plain, compose in *. cbn [s_fields] in *.
+    destruct v as [|[a| | |] [|[|r| |] [|[t| | |] [|[|h| |] [|]]]]];
+      cbn [wf_fvals wf_fval U8 U32 andb] in Hf; try discriminate Hf;
+      try (rewrite ?andb_false_r in Hf; discriminate Hf).
+    apply andb_true_iff in Hf as [_ Hf]. apply andb_true_iff in Hf as [Hr Hf].
+    apply andb_true_iff in Hf as [_ Hf]. apply andb_true_iff in Hf as [Hh _].
+    apply andb_true_iff in Hr as [Hr _]. apply andb_true_iff in Hh as [Hh _].
+    apply Nat.eqb_eq in Hr, Hh.
+    cbn [compose_fields compose_field U8 U32]. rewrite !len_app, !len_be, len_nil. unfold len. lia.
+Qed.
+
+Example std_cookie_example :
+  c05_stdcookie [1; 0;0;0; 0;0;1;0; 1;2;3;4;5;6;7;8] = Some [VNum 1; VBytes [0;0;0]; VNum 256; VBytes [1;2;3;4;5;6;7;8]] /\
+  c05_stdcookie [1;2;3;4;5;6;7;8] = None /\ c05_stdcookie (repeat 0 17) = None.
+Proof. vm_compute. auto. Qed.
